@@ -338,6 +338,12 @@ func c11Gen(r *Rand, tier string) []string {
 		per = 3000
 	}
 	var out []string
+	// csv: every character that forces quoting, alone and combined, as group values (mode 1) and constants
+	for _, v := range []string{"a\rb", "\r", "x\r", "\r\n", "a\"b", "\"", ",", "a,b", "a\nb", "\n", "plain", "", " ", "a\r,b"} {
+		out = append(out, c11Case(true, "csv", []c11Arg{{val: v, mode: 1}}))
+		out = append(out, c11Case(false, "csv", []c11Arg{{val: "k", mode: 1}, {val: v, mode: 1}}))
+		out = append(out, c11Case(true, "csv", []c11Arg{{val: v, mode: 1}, {val: v, mode: 1}, {val: "z", mode: 1}}))
+	}
 	for _, h := range c11Helpers {
 		n := per
 		if h.name == "format" {
